@@ -286,6 +286,12 @@ def variants(sc, rng, full):
         small = [i for i in integ if i[0].startswith("cvode_b")]
         if small:
             pairs += [(divisions[0], small[0]), (rng.choice(divisions[1:]), small[-1])]
+    if sc["family"] == "ramp":
+        # explicit time dependence + INCREMENTAL steps: an early exit of -runge_kutta 2/3 with equal rates sets rk = 1 in the saved
+        # KINETICS, so the LATER incremental steps run the time-blind rk = 1 shortcut (known finding C12:rk1-shortcut-time-blind,
+        # fixed probe 'demoted' in known_probes).  Only -runge_kutta 6 is never demoted.
+        rk6 = [i for i in integ if i[0].startswith("rk6")]
+        pairs = [((dn, d), (i if (not d["incr"] or i[0].startswith("rk6")) else rng.choice(rk6))) for (dn, d), i in pairs]
     seen = set()
     for (dn, d), (iname, iopts) in pairs:
         if (dn, iname) in seen:
@@ -816,27 +822,34 @@ def known_probes(ctx):
     sc = RAMP_SC
     v1 = {"name": "single/cvode", "steps": "400", "incr": False, "list": ["400"], "eq": False, "cnt": 1, "opts": ["-cvode true"], "id": "probe-cvode"}
     v2 = {"name": "inc_list/rk1", "steps": "100 100 200", "incr": True, "list": ["100", "100", "200"], "eq": False, "cnt": 1, "opts": ["-runge_kutta 1"], "id": "probe-rk1"}
+    # the same shortcut reached from -runge_kutta 3: the first incremental step (5 s) leaves through the equal-rates exit, which sets
+    # rk = 1 in the saved KINETICS; the later steps (15, 60, 5, 15 s) are then single Euler steps whose time-blind check always passes
+    sc3 = {"family": "ramp", "tol": "1e-6", "m0": "0.001128", "r0": "4.457e-07", "r1": "9.253e-08", "T": 100, "incs": ["5", "15", "60", "5", "15"], "nequal": 8}
+    v3 = {"name": "inc_list/rk3-demoted", "steps": "5 15 60 5 15", "incr": True, "list": ["5", "15", "60", "5", "15"], "eq": False, "cnt": 1, "opts": ["-runge_kutta 3"], "id": "probe-rk3-demoted"}
     jobs = []
-    for v in (v1, v2):
-        v["text"] = input_text(sc, v)
+    for v, s_ in ((v1, sc), (v2, sc), (v3, sc3)):
+        v["text"] = input_text(s_, v)
+        v["sc"] = s_
         jobs.append({"id": v["id"], "db": "phreeqc.dat", "text": v["text"]})
-    res = vlib.run_inputs(jobs, timeout_each=25, workers=2)
+    res = vlib.run_inputs(jobs, timeout_each=60, workers=3)
     exprs, metas = [], []
     for v, key, why in ((v1, KEY_CVODE_TIME, "Phreeqc::f/Jac set rate_sim_time = cvode_rate_sim_time and ignore t"),
-                        (v2, KEY_RK1_TIME, "the rk=1 shortcut re-evaluates the rate without advancing rate_sim_time")):
+                        (v2, KEY_RK1_TIME, "the rk=1 shortcut re-evaluates the rate without advancing rate_sim_time"),
+                        (v3, KEY_RK1_TIME, "-runge_kutta 3 demoted to rk = 1 by the equal-rates exit of the first incremental step; later steps use the time-blind rk=1 shortcut")):
         r = res.get(v["id"]) or {}
         rows = rows_of(r) if r.get("rc") == 0 else []
         if not rows:
             ctx.notes.append("probe %s did not produce rows (rc=%s)" % (v["name"], r.get("rc")))
             continue
         row = rows[-1]
-        exprs.append("check_closed %s %s %s %s" % (closed_forms_coq(sc)["Aa"], vlib.coq_Q(row["time"]), vlib.coq_Q(row["k_Aa"]), vlib.coq_Q(100 * fr(sc["tol"]))))
+        exprs.append("check_closed %s %s %s %s" % (closed_forms_coq(v["sc"])["Aa"], vlib.coq_Q(row["time"]), vlib.coq_Q(row["k_Aa"]), vlib.coq_Q(100 * fr(v["sc"]["tol"]))))
         metas.append((v, key, why, row))
     for (v, key, why, row), ok in zip(metas, coq_bools(exprs)):
-        ctx.case("probe:" + v["name"], sample={"probe": v["name"], "M(400)": row["k_Aa"], "exact": 0.042, "accepted": bool(ok)})
+        exact = closed_forms_py(v["sc"], row["time"])["Aa"]
+        ctx.case("probe:" + v["name"], sample={"probe": v["name"], "M(T)": row["k_Aa"], "exact": exact, "accepted": bool(ok)})
         if ok is False:
-            ctx.violation(key, "time-dependent rate 1e-7*TOTAL_TIME, %s: M(400) = %.9g, exact 0.042, 100*tol = 1e-7 (%s)" % (v["name"], row["k_Aa"], why),
-                          {"kind": "input", "database": "phreeqc.dat", "input_text": v["text"], "observed": row["k_Aa"], "expected": 0.042, "scenario": sc, "variant": v["name"]})
+            ctx.violation(key, "time-dependent rate r0 + r1*TOTAL_TIME, %s: M(%g) = %.9g, exact %.9g, 100*tol = %g (%s)" % (v["name"], row["time"], row["k_Aa"], exact, 100 * float(v["sc"]["tol"]), why),
+                          {"kind": "input", "database": "phreeqc.dat", "input_text": v["text"], "observed": row["k_Aa"], "expected": exact, "scenario": v["sc"], "variant": v["name"]})
         elif ok is None:
             ctx.obligation("coq-evaluation-of-probe-cases", False, "probe cases did not evaluate")
 
